@@ -93,7 +93,9 @@ class _RoutingFlowControl:
             if elapsed < ROUTING_INDICATION_WAIT_TIME:
                 await asyncio.sleep(ROUTING_INDICATION_WAIT_TIME - elapsed)
 
-            await self._ready.wait()
+            # a RoutingBusy may clear the flag again before a woken waiter runs
+            while not self._ready.is_set():
+                await self._ready.wait()
             yield
             self._last_sent_routing_indication_time = self._loop.time()
 
